@@ -4,7 +4,7 @@
    `*_before_fix` theorems record what the earlier definitions did (kept in
    Model.v as depth_oldrule / erosion_excl) - they are about the OLD code only. *)
 From Coq Require Import ZArith List Bool Arith Lia.
-From NV.C12 Require Import Model Proofs1 Proofs2.
+From NV.C12 Require Import Model Proofs1 Proofs2 Proofs3.
 Import ListNotations.
 
 (* ================================================================== *)
@@ -240,6 +240,112 @@ Theorem erosion_excl_raises_on_isolated :
   forall E f i, i < length f -> row E (length f) i = [] -> erosion_excl E f = None.
 Proof. exact erosion_excl_isolated. Qed.
 Print Assumptions erosion_excl_raises_on_isolated.
+
+(* ================================================================== *)
+(** * custom_watershed (one feature column; th = None is -inf) *)
+
+(* (W1) the call raises exactly when no vertex reaches the threshold; otherwise a vertex is
+   labelled (label >= 0) iff its value reaches the threshold, and there is one idx per basin *)
+Theorem watershed_labels_total :
+  forall E f th idx lab, custom_watershed E f th = Some (idx, lab) ->
+  length lab = length f /\ length idx = length (ws_roots E f th) /\
+  forall i, i < length f -> ((0 <= zat lab i)%Z <-> aboveb th (zat f i) = true).
+Proof.
+  intros E f th idx lab H. unfold custom_watershed in H.
+  destruct (above_list f th); [discriminate|]. inversion H; subst; clear H.
+  rewrite !map_length, !seq_length. split; [reflexivity|]. split; [reflexivity|].
+  intros i Hi. unfold zat at 1. rewrite nth_map_seq0 by exact Hi. unfold ws_label.
+  destruct (aboveb th (zat f i)); split; intros; try lia; try reflexivity; discriminate.
+Qed.
+Print Assumptions watershed_labels_total.
+
+Theorem watershed_raises_iff_none_above :
+  forall E f th, custom_watershed E f th = None <-> forall i, i < length f -> aboveb th (zat f i) = false.
+Proof.
+  intros E f th. unfold custom_watershed. destruct (above_list f th) as [|a l] eqn:EA.
+  - split; [intros _|reflexivity]. intros i Hi. destruct (aboveb th (zat f i)) eqn:Ea; [|reflexivity].
+    exfalso. assert (In i (above_list f th)) by (apply above_list_spec; split; assumption). rewrite EA in H. exact H.
+  - split; [discriminate|]. intros H. exfalso.
+    assert (Ha : In a (above_list f th)) by (rewrite EA; left; reflexivity).
+    apply above_list_spec in Ha. destruct Ha as [La Aa]. unfold above in Aa. rewrite (H a La) in Aa. discriminate.
+Qed.
+Print Assumptions watershed_raises_iff_none_above.
+
+(* (W2) every thresholded vertex i ascends (highest neighbour, repeatedly) to a vertex r = ws_root i
+   that is its own highest neighbour in the thresholded graph, carries the same label, and
+   whose value is >= the value of i: each basin contains a maximum *)
+Theorem watershed_basin_has_maximum :
+  forall E f th i, i < length f -> aboveb th (zat f i) = true ->
+  let r := ws_root E f th i in
+  r < length f /\ aboveb th (zat f r) = true /\ hn_at E f th r = r /\
+  ws_label E f th r = ws_label E f th i /\ (zat f i <= zat f r)%Z.
+Proof.
+  intros E f th i Hi Ha r. destruct (ws_root_props E f th i Hi Ha) as [L [A [F [Le [_ RR]]]]]. fold r in L, A, F, Le, RR.
+  split; [exact L|]. split; [exact A|]. split; [exact F|]. split; [|exact Le].
+  unfold ws_label. unfold above in A. rewrite A, Ha. f_equal. apply same_label_iff; assumption.
+Qed.
+Print Assumptions watershed_basin_has_maximum.
+
+(* (W3) ... exactly one: a thresholded vertex that is its own highest neighbour and has the label of i IS ws_root i *)
+Theorem watershed_basin_maximum_unique :
+  forall E f th i r, i < length f -> aboveb th (zat f i) = true ->
+  r < length f -> aboveb th (zat f r) = true -> hn_at E f th r = r ->
+  ws_label E f th r = ws_label E f th i -> r = ws_root E f th i.
+Proof.
+  intros E f th i r Hi Ha Hr Har Hfix Hl. unfold ws_label in Hl. rewrite Ha, Har in Hl.
+  apply Nat2Z.inj in Hl. apply same_label_iff in Hl; try assumption.
+  rewrite (fixed_is_own_root E f th r Hr Har Hfix) in Hl. exact Hl.
+Qed.
+Print Assumptions watershed_basin_maximum_unique.
+
+(* (W4) the index reported for the basin of i is that maximum *)
+Theorem watershed_idx_is_the_maximum :
+  forall E f th idx lab, custom_watershed E f th = Some (idx, lab) ->
+  forall i, i < length f -> aboveb th (zat f i) = true ->
+  nth (Z.to_nat (zat lab i)) idx 0 = ws_root E f th i.
+Proof.
+  intros E f th idx lab H i Hi Ha. unfold custom_watershed in H.
+  destruct (above_list f th); [discriminate|]. inversion H; subst; clear H.
+  assert (EL : zat (map (ws_label E f th) (seq 0 (length f))) i = Z.of_nat (ws_label_nat E f th i)).
+  { unfold zat. rewrite nth_map_seq0 by exact Hi. unfold ws_label. rewrite Ha. reflexivity. }
+  rewrite EL, Nat2Z.id. rewrite nth_map_seq0 by (apply label_lt; assumption). apply ws_idx_is_root; assumption.
+Qed.
+Print Assumptions watershed_idx_is_the_maximum.
+
+(* two thresholded vertices share a label iff they ascend to the same maximum *)
+Theorem watershed_label_iff_same_maximum :
+  forall E f th i j, i < length f -> aboveb th (zat f i) = true -> j < length f -> aboveb th (zat f j) = true ->
+  (ws_label E f th i = ws_label E f th j <-> ws_root E f th i = ws_root E f th j).
+Proof.
+  intros E f th i j Hi Hai Hj Haj. unfold ws_label. rewrite Hai, Haj.
+  rewrite <- (same_label_iff E f th i j Hi Hai Hj Haj). split; [apply Nat2Z.inj|intros ->; reflexivity].
+Qed.
+Print Assumptions watershed_label_iff_same_maximum.
+
+(* ================================================================== *)
+(** * threshold_bifurcations (one feature column) *)
+
+(* (B1) for ANY visiting order that np.argsort(-field) may return (a permutation of the thresholded
+   vertices by non-increasing value), every vertex that reaches the threshold gets a label >= 0 and
+   no other vertex does *)
+Theorem bifurcation_labels_total :
+  forall E f th order idx par lab, bif_order_ok f th order = true ->
+  threshold_bifurcations E f th order = Some (idx, par, lab) ->
+  length lab = length f /\
+  forall i, i < length f -> ((0 <= zat lab i)%Z <-> aboveb th (zat f i) = true).
+Proof. exact bif_labels_total. Qed.
+Print Assumptions bifurcation_labels_total.
+
+Example bifurcation_witness :
+  threshold_bifurcations [(0,1);(1,0);(1,2);(2,1)] [2;0;1]%Z None [0;2;1] = Some ([0;2;1], [2;2;2], [0;2;1]%Z) /\
+  threshold_bifurcations [(0,1);(1,0);(1,2);(2,1)] [0;1;2]%Z None [2;1;0] = Some ([2], [0], [0;0;0]%Z).
+Proof. vm_compute. split; reflexivity. Qed.
+
+Example watershed_witness :
+  custom_watershed [(0,1);(1,0);(1,2);(2,1);(2,3);(3,2)] [3;1;2;5]%Z (Some 2%Z) = Some ([0;3], [0;-1;1;1]%Z) /\
+  custom_watershed [(0,1);(1,0)] [0;0;0]%Z None = Some ([0;2], [0;0;1]%Z) /\
+  custom_watershed [] [1]%Z (Some 2%Z) = None.
+Proof. vm_compute. repeat split; reflexivity. Qed.
 
 (* non-vacuity *)
 Example morphology_witness :
